@@ -296,7 +296,9 @@ Proof.
     split; [right; right; reflexivity|]. split; [exact RLbr|]. split; [lia|]. split; [lia|].
     split; [lia|]. split; [exact Hclc4|]. split; [intros Hc; discriminate|].
     split; [intros Hc; discriminate|exact Hfr4]. }
-  assert (gerr = ENone) by (destruct gerr; try discriminate; reflexivity). subst gerr.
+  assert (Hg : gerr = ENone).
+  { clear - Egerr. destruct gerr; try discriminate; reflexivity. }
+  subst gerr.
   destruct (GS2 eq_refl) as (GS2a & GS2b).
   set (d5 := set_dyn_huff (set_dyn_huff (dyn s4) huff) huff2) in *.
   assert (RP5 : rl_post_lit (litAndDistHuff d5) (litCount d5) (litExpandCount d5)).
@@ -307,7 +309,7 @@ Proof.
   destruct (setAndExpand_spec d5 d6 e6 ESE RP5) as (SE1 & SE2 & SE3 & SE4 & SE5).
   assert (Hclc6 : clc_ok d6).
   { unfold clc_ok. rewrite SE3. exact Hclc4. }
-  destruct e6; try (exfalso; destruct SE1 as [Hc|Hc]; discriminate).
+  destruct SE1 as [He6|He6]; subst e6.
   2:{ apply pair_equal_spec in H; destruct H as [Hs He]; subst s' e. split; [|intros Hc; discriminate]. unfold hdr_post. sproj.
     split; [right; right; reflexivity|]. split; [exact RLbr|]. split; [lia|]. split; [lia|].
     split; [lia|]. split; [exact Hclc6|]. split; [intros Hc; discriminate|].
